@@ -50,6 +50,7 @@ type Directives struct {
 	GuardErrors bool // every non-nil error obtained from a callee leads to a non-nil returned error
 	CyclicLemma bool // lemma on a cycle of lemma uses (uses inside the cycle give no facts)
 	Decreases string // lemma: termination measure for self-recursive (inductive) use
+	MonotoneFalse map[string]bool // boolean locals that may only be lowered
 	Sites     []CallSiteDir // assertions checked immediately before a statement with the given source text
 	CallSites []CallSiteDir // assertions checked in the caller's scope immediately before a named call
 	PureFuncValues bool // calls through func-typed variables are uninterpreted pure functions in this VC
@@ -147,6 +148,13 @@ func parseDirectives(cg *ast.CommentGroup) *Directives {
 			d.SpecFrame = true
 		case "pure-funcvalues":
 			d.PureFuncValues = true
+		case "monotone-false":
+			if d.MonotoneFalse == nil {
+				d.MonotoneFalse = map[string]bool{}
+			}
+			for _, x := range f[1:] {
+				d.MonotoneFalse[x] = true
+			}
 		case "site":
 			// `site <statement text>: <expr>`: assertion immediately before every statement whose source
 			// text (first line) equals the given text
